@@ -294,21 +294,17 @@ SCENARIOS = {
 }
 
 
-def run(ctx):
+def _scenario(name):
+    """Explore one scenario in a process of its own (forked fresh): warm-up, lock replacement, exploration."""
     import beartype.claw  # noqa
-    from beartype.door import is_bearable, TypeHint
     from . import c06
-    assert sched.selftest()
-    inv = sched.inventory()
-    nfun = inv.pop('__functions__')
-    _STATE['C6'] = c06.confs()
-    _STATE['quick'] = ctx.quick
+    inv = dict(_STATE['inv'])
     _STATE['pristine'] = c06.snapshot()
     # warm-up first (imports every lazily imported beartype module, fills the tables shared by all fresh inputs), THEN
     # replace the locks, so that no module imported later can hold a real lock
     with warnings.catch_warnings():
         warnings.simplefilter('ignore')
-        for name, factory in SCENARIOS.items():
+        for n2, factory in SCENARIOS.items():
             make, judge = factory()
             for _ in range(2):
                 for f in make():
@@ -317,54 +313,82 @@ def run(ctx):
     nlocks = sched.replace_locks()
     assert nlocks >= 4, f'only {nlocks} beartype locks found to replace'
     assert sched.replace_locks() == 0, 'a real lock survived replacement'
+    viols = []
+    make, judge = SCENARIOS[name]()
+
+    def check(s):
+        errs = [e for e in s.errors if e is not None]
+        sig = None
+        if isinstance(s.fatal, sched.Deadlock):
+            sig, what = f'deadlock:{name}', str(s.fatal)
+        elif isinstance(s.fatal, sched.Hang):
+            raise AssertionError(f'harness: {s.fatal} [scenario {name}; schedule {s.choices[:80]}]')
+        elif s.fatal is not None:
+            sig, what = f'{type(s.fatal).__name__}:{name}', str(s.fatal)
+        elif errs:
+            e = errs[0]
+            sig, what = f'exception:{name}:{type(e).__name__}', f'thread raised {type(e).__name__}: {str(e)[:200]}'
+        else:
+            bad = judge(s.results)
+            if bad:
+                sig, what = f'result:{name}', bad
+        if sig:
+            pre = sum(1 for (nopt, run_en, lab), c in zip(s.points, s.choices) if run_en and c != 0)
+            where = [str(lab) for (nopt, run_en, lab), c in zip(s.points, s.choices) if run_en and c != 0][:4]
+            if len(viols) < 50:
+                viols.append((sig, f'{what}  [scenario {name}; {pre} preemption(s) at {where}; schedule {s.choices[:60]}]',
+                              {'scenario': name, 'choices': list(s.choices)}))
+            return 'BAD:' + sig
+        return 'ok'
+    with warnings.catch_warnings():
+        warnings.simplefilter('ignore')
+        # iterate the bound: bound 1 is always completed before bound 2 is started, so a cap can only cut bound 2 short
+        st = None
+        for b in range(1, _STATE['bound'] + 1):
+            sb = sched.explore(make, check, inv, bound=b, max_exec=_STATE['cap'])
+            if st is None:
+                st = sb
+            else:
+                for k in ('executions', 'divergences', 'deadlocks'):
+                    st[k] += sb[k]
+                st['points_max'] = max(st['points_max'], sb['points_max'])
+                st['capped'] = sb['capped']
+                st['distinct_outcomes'] |= sb['distinct_outcomes']
+            if sb['capped']:
+                break
+    return name, {k: st[k] for k in ('executions', 'points_max', 'capped', 'divergences', 'deadlocks')}, sorted(st['distinct_outcomes']), viols, nlocks
+
+
+def run(ctx):
+    from . import c06
+    assert sched.selftest()
+    inv = sched.inventory()
+    nfun = inv.pop('__functions__')
     bound = 1 if ctx.quick else 2
-    cap = 4000 if ctx.quick else 200000
+    cap = 4000 if ctx.quick else 40000
+    _STATE.update(C6=c06.confs(), quick=ctx.quick, inv=inv, bound=bound, cap=cap)
     tot = {'executions': 0, 'points_max': 0, 'deadlocks': 0, 'divergences': 0}
     per = {}
     outcomes = set()
-    with warnings.catch_warnings():
-        warnings.simplefilter('ignore')
-        for name, factory in SCENARIOS.items():
-            make, judge = factory()
-
-            def check(s, name=name, judge=judge):
-                errs = [e for e in s.errors if e is not None]
-                sig = None
-                if isinstance(s.fatal, sched.Deadlock):
-                    sig, what = f'deadlock:{name}', str(s.fatal)
-                elif isinstance(s.fatal, sched.Hang):
-                    raise AssertionError(f'harness: {s.fatal} [scenario {name}; schedule {s.choices[:80]}]')
-                elif s.fatal is not None:
-                    sig, what = f'{type(s.fatal).__name__}:{name}', str(s.fatal)
-                elif errs:
-                    e = errs[0]
-                    sig, what = f'exception:{name}:{type(e).__name__}', f'thread raised {type(e).__name__}: {str(e)[:200]}'
-                else:
-                    bad = judge(s.results)
-                    if bad:
-                        sig, what = f'result:{name}', bad
-                if sig:
-                    pre = sum(1 for (nopt, run_en, lab), c in zip(s.points, s.choices) if run_en and c != 0)
-                    where = [str(lab) for (nopt, run_en, lab), c in zip(s.points, s.choices) if run_en and c != 0][:4]
-                    ctx.violation(sig, f'{what}  [scenario {name}; {pre} preemption(s) at {where}; schedule {s.choices[:60]}]',
-                                  {'scenario': name, 'choices': s.choices})
-                    return 'BAD:' + sig
-                return 'ok'
-            st = sched.explore(make, check, inv, bound=bound, max_exec=cap)
-            per[name] = {'executions': st['executions'], 'max_points': st['points_max'], 'capped': st['capped'], 'divergences': st['divergences']}
-            for k in tot:
-                tot[k] = tot[k] + st[k] if k != 'points_max' else max(tot[k], st[k])
-            outcomes |= {f'{name}:{o}' for o in st['distinct_outcomes']}
-    c06.restore(_STATE['pristine'])
+    nlocks = 0
+    for name, st, outs, viols, nl in ctx.pmap(_scenario, list(SCENARIOS), fresh=True):
+        nlocks = nl
+        per[name] = {'executions': st['executions'], 'max_points': st['points_max'], 'capped': st['capped'], 'divergences': st['divergences']}
+        for k in tot:
+            tot[k] = tot[k] + st[k] if k != 'points_max' else max(tot[k], st[k])
+        outcomes |= {f'{name}:{o}' for o in outs}
+        for v in viols:
+            ctx.violation(*v)
+    per = {n: per[n] for n in SCENARIOS if n in per}
     capped = [n for n, p in per.items() if p['capped']]
     ctx.cover(
         evaluations=tot['executions'], states=tot['executions'], transitions=sum(p['executions'] * max(1, p['max_points']) for p in per.values()),
         traces_validated_against_impl=tot['executions'], distinct_nontrivial=sum(1 for p in per.values() if p['executions'] > 1) + len(per),
-        schedules=tot['executions'], preemption_bound_completed=bound if not capped else f'{bound} (capped for: {capped})',
+        schedules=tot['executions'], preemption_bound_completed=bound if not capped else f'{bound} (capped at {cap} schedules for: {capped}; bound {bound - 1} complete)',
         scenarios=per, inventory_functions=nfun, inventory_files=len(inv), locks_replaced=nlocks, deadlocks=tot['deadlocks'],
         replay_divergences=tot['divergences'], distinct_outcomes=sorted(outcomes)[:20], exhaustive=not capped,
         samples=[{'scenario': n, **p} for n, p in list(per.items())[:4]],
-        rule=(f'E3: {len(SCENARIOS)} scenarios of 2-3 real threads over fresh inputs, executed under a settrace baton scheduler with a '
+        rule=(f'E3: {len(SCENARIOS)} scenarios of 2-3 real threads over fresh inputs (one process per scenario), executed under a settrace baton scheduler with a '
               f'scheduling point on every line of the {nfun} inventoried shared-state functions of beartype (AST scan: functions touching '
               'module-level mutable containers, pool / cache primitives or locks) and on every acquire of the cooperative locks that '
               f'replace beartype\'s {nlocks} lock objects; every schedule with <= {bound} preemption(s) is executed (CHESS iterative '
